@@ -318,7 +318,17 @@ def post_equal_means_both_absent(ctx, s):
 
 
 def post_required_if(ctx, stmts):
-    """else branch `x = <enum member>; if self.<key> == x: raise` -> (key field, member)"""
+    """else branch `x = <enum member>; if self.<key> == x: raise`, or its elif form `elif self.<key> == <enum member>: raise`
+    -> (key field, member)"""
+    if len(stmts) == 1 and isinstance(stmts[0], ast.If) and not stmts[0].orelse and _single_raise(stmts[0].body):
+        t = stmts[0].test
+        if isinstance(t, ast.Compare) and len(t.ops) == 1 and isinstance(t.ops[0], ast.Eq) and _self_attr(t.left) \
+                and isinstance(t.comparators[0], ast.Attribute) and not any(_is_name(n, 'self') for n in ast.walk(t.comparators[0])):
+            import enum as _enum
+            member = ctx.evaluate(t.comparators[0])
+            if not isinstance(member, _enum.Enum) or isinstance(member.value, bool) or not isinstance(member.value, int):
+                raise ctx.err(stmts[0], 'the compared value is not an integer enumeration member')
+            return ctx.field_of(t.left)[0], member
     if len(stmts) == 2 and isinstance(stmts[0], ast.Assign) and len(stmts[0].targets) == 1 and isinstance(stmts[0].targets[0], ast.Name) \
             and isinstance(stmts[1], ast.If) and not stmts[1].orelse and len(stmts[1].body) == 1 and isinstance(stmts[1].body[0], ast.Raise):
         t = stmts[1].test
@@ -1534,12 +1544,95 @@ def setter_kinds(ctx, kinds, field):
     return out
 
 
+def _single_raise(body):
+    return len(body) == 1 and isinstance(body[0], ast.Raise)
+
+
+def _guard_presence(test, side):
+    """`not <presence test>` / `<x> is None`  ->  the positive presence test, or None.
+    reader: presence test = self.is_tag_next(T, buf); writer: self._x | self._x is not None"""
+    if isinstance(test, ast.UnaryOp) and isinstance(test.op, ast.Not):
+        t = test.operand
+        if side == 'read':
+            if isinstance(t, ast.Call) and _self_attr(t.func) == 'is_tag_next':
+                return t
+            return None
+        if _self_attr(t):
+            return t
+        if isinstance(t, ast.Compare) and len(t.ops) == 1 and isinstance(t.ops[0], ast.IsNot) and _self_attr(t.left) \
+                and isinstance(t.comparators[0], ast.Constant) and t.comparators[0].value is None:
+            return t
+        return None
+    if side == 'write' and isinstance(test, ast.Compare) and len(test.ops) == 1 and isinstance(test.ops[0], ast.Is) \
+            and _self_attr(test.left) and isinstance(test.comparators[0], ast.Constant) and test.comparators[0].value is None:
+        return ast.copy_location(ast.Compare(left=test.left, ops=[ast.IsNot()], comparators=[ast.Constant(value=None)]), test)
+    return None
+
+
+def normalise_guard_clauses(stmts, side):
+    """Guard clauses to the nested normal form the walkers know (behaviour preserving):
+
+        if not P: raise ...          if P:
+        A                     ==>        A
+        [B]                              [B]
+                                     else:
+                                         raise ...
+
+    reader: P = self.is_tag_next(T, buf) and A [B [C]] = construct; read [; self.f = local]; writer: P = self._x |
+    self._x is not None (also written `self._x is None` in the guard) and A = the single write / loop over that attribute.
+    Anything that does not fit exactly is left alone (and then fails closed in the walker)."""
+    out, i = [], 0
+    stmts = list(stmts)
+    while i < len(stmts):
+        s = stmts[i]
+        for attr in ('body', 'orelse'):
+            if isinstance(s, (ast.If, ast.For, ast.While)) and getattr(s, attr, None):
+                setattr(s, attr, normalise_guard_clauses(getattr(s, attr), side))
+        p = _guard_presence(s.test, side) if isinstance(s, ast.If) and not s.orelse and _single_raise(s.body) else None
+        unit = None
+        if p is not None:
+            rest = stmts[i + 1:]
+            if side == 'read':
+                # construct; read [; self.f = local]
+                if len(rest) >= 2 and isinstance(rest[0], ast.Assign) and isinstance(rest[0].value, ast.Call) \
+                        and isinstance(rest[1], ast.Expr) and isinstance(rest[1].value, ast.Call) \
+                        and isinstance(rest[1].value.func, ast.Attribute) and rest[1].value.func.attr == 'read' \
+                        and ast.dump(rest[1].value.func.value) == ast.dump(rest[0].targets[0]).replace('Store()', 'Load()'):
+                    n = 2
+                    if len(rest) >= 3 and isinstance(rest[0].targets[0], ast.Name) and isinstance(rest[2], ast.Assign) \
+                            and _is_name(rest[2].value, rest[0].targets[0].id) and _self_attr(rest[2].targets[0]):
+                        n = 3
+                    unit = rest[:n]
+            else:
+                tested = p.left if isinstance(p, ast.Compare) else p
+                if rest:
+                    a = rest[0]
+                    tgt = None
+                    if isinstance(a, ast.Expr) and isinstance(a.value, ast.Call) and isinstance(a.value.func, ast.Attribute) \
+                            and a.value.func.attr == 'write':
+                        tgt = a.value.func.value
+                    elif isinstance(a, ast.For):
+                        tgt = a.iter
+                    if tgt is not None and _self_attr(tgt) and _self_attr(tgt).lstrip('_') == _self_attr(tested).lstrip('_'):
+                        unit = rest[:1]
+        if unit:
+            new = ast.copy_location(ast.If(test=p, body=list(unit), orelse=list(s.body)), s)
+            out.append(ast.fix_missing_locations(new))
+            i += 1 + len(unit)
+            continue
+        out.append(s)
+        i += 1
+    return out
+
+
 def translate_class(ctx, kinds):
     fdefs = {f.name: f for f in ctx.cdef.body if isinstance(f, ast.FunctionDef) and f.name in ('read', 'write')}
     rdef, wdef = fdefs['read'], fdefs['write']
     for f in (rdef, wdef):
         if f.decorator_list:
             raise ctx.err(f, 'decorated %s' % f.name)
+    rdef.body = normalise_guard_clauses(rdef.body, 'read')
+    wdef.body = normalise_guard_clauses(wdef.body, 'write')
     r = ReadWalker(ctx, kinds)
     r.instream = method_args(ctx, rdef)
     r.walk(rdef.body, (LO_MIN, HI_MAX), top=True)
